@@ -97,6 +97,27 @@ for e in all_entries():
                                  extra_shards=[{"codec": C(0)}, {"codec": C(1), "defMode": C(True), "chunk": C(0)}, {"codec": C(2), "defMode": C(True), "chunk": C(0)}]))
 
 
+def pyval_twice(sid, codec, w_2, **slots):
+    """Two different values of one SET type (they differ in the alternative of the untagged CHOICE member) are encoded one after the other
+    as Python trees with ONE schema object: each must equal the encoding of its value object (no state kept per schema between calls)."""
+    e = by_id(sid)
+    enc = (ber_encoder, cer_encoder, der_encoder)[codec]
+    spec = mk_type(e.t)
+    for w in (slots["w"], w_2, slots["w"]):
+        av = e.mk(**dict(slots, w=w))
+        want = enc.encode(build(e.t, av))
+        got = enc.encode(py_tree(e.t, av), asn1Spec=spec)
+        if got != want:
+            return "encoding the Python tree with the schema differs from encoding the value object (second value with the same schema object)"
+    return None
+
+
+for _sid in ("set_chx", "set_mixed"):
+    _e = by_id(_sid)
+    OBLIGATIONS.append(entry_obl("pyval_twice", pyval_twice, _e, extra={"codec": I(0, 2), "w_2": _e.params["w"]}, narrow=True,
+                                 extra_shards=[{"codec": C(c_)} for c_ in range(3)], doc="two values of one SET type with different CHOICE alternatives through one schema object"))
+
+
 def pyval_long(kind, size, x, cer):
     """Strings around the CER segment size given as plain Python values + schema vs as value objects (CER; BER chunked by 1000)."""
     t = [T("OCTS"), T("OCTS").tagged(("I", "C", 0)), T("OCTS").tagged(("E", "C", 1)), T("STR:UTF8"), T("STR:IA5").tagged(("I", "A", 3)),
